@@ -127,6 +127,12 @@ def _second_pass(loc: evid.Local) -> None:
 
 
 def _work(job: t.Tuple[t.Any, ...]) -> evid.Local:
+    # a library call that never returns is reported (CallDoesNotReturn), it does not hang the check
+    with K.watchdog():
+        return _work_cases(job)
+
+
+def _work_cases(job: t.Tuple[t.Any, ...]) -> evid.Local:
     loc = evid.Local()
     fam = job[0]
     IT, small, maxdev = _X["items"], _X["small"], _X["maxdev"]
